@@ -71,7 +71,7 @@ def mutate(rng, s):
 def run(ctx):
     thorough = ctx.tier == "thorough"
     rng = random.Random(ctx.seed)
-    n = 100000 if thorough else 5000
+    n = 400000 if thorough else 5000
     ctx.tlc_ok("SqlCases", CFG % (n, 3), workers=1, timeout=3000, heap="10g")
     gen = [dict(c, src="SqlAst") for c in ctx.read_ndjson("c30_cases.ndjson")]
     base = corpus()
@@ -79,7 +79,7 @@ def run(ctx):
         raise core.Machinery("only %d statements found in the vendored parser tests" % len(base))
     cor = [{"sql": s, "src": "corpus"} for s in base]
     pool = base + [c["sql"] for c in gen[:2000]]
-    mut = [{"sql": mutate(rng, rng.choice(pool)), "src": "mutation"} for _ in range(150000 if thorough else 8000)]
+    mut = [{"sql": mutate(rng, rng.choice(pool)), "src": "mutation"} for _ in range(600000 if thorough else 8000)]
     cases = gen + cor + mut
     for i, c in enumerate(cases):
         c["id"] = i
